@@ -142,7 +142,9 @@ fn check_insert(shape: usize, conflict: usize, returning: usize, with: bool) -> 
         0 => { i.columns([a("a"), a("b")]).values_panic([1.into(), 2.into()]); }
         1 => { i.columns([a("a"), a("b")]).values_panic([1.into(), 2.into()]).values_panic([3.into(), 4.into()]); }
         2 => { i.columns([a("a"), a("b")]).select_from(Query::select().column(a("c")).column(a("d")).from(a("v")).to_owned()).unwrap(); }
-        _ => { i.or_default_values(); }
+        3 => { i.or_default_values(); }
+        // the documented fallback: no columns and an EMPTY row given explicitly, on a statement that relies on or_default_values()
+        _ => { i.or_default_values().columns(Vec::<Alias>::new()).values_panic(Vec::<SimpleExpr>::new()); }
     }
     if with { e.q(&format!("WITH {CTE}")); }
     e.q("INSERT INTO `t`");
@@ -324,7 +326,7 @@ pub fn search(_obl: &str) -> Vec<Witness> {
     for mask in 0..32u32 { run!(check_delete(mask)); }
     for mask in 0..8u32 { run!(check_with(mask)); }
     for k in 0..10usize { run!(check_misc(k)); }
-    for shape in 0..4usize { for conflict in 0..9usize { for returning in 0..3usize { for with in [false, true] { run!(check_insert(shape, conflict, returning, with)); } } } }
+    for shape in 0..5usize { for conflict in 0..9usize { for returning in 0..3usize { for with in [false, true] { run!(check_insert(shape, conflict, returning, with)); } } } }
     // ORDER BY item kinds x NULLS forms and lock forms, alone and with every other clause present
     for ord in 0..9usize { for lock in 0..4usize { for mask in [1 << 10, (1 << 10) | (1 << 13), (1 << SEL_BITS) - 1] { run!(check_select(mask, ord, lock)); } } }
     // every subset of the 14 SELECT clauses
